@@ -111,6 +111,8 @@ class SymPool:
         SymPool.instances += 1
         self.closed = False
         self.processes = (a[0] if a else k.get('processes', k.get('nodes')))
+        # the workers are forked now: they keep the working directory of this moment
+        self.cwd = SymPool.fs.cwd if SymPool.fs is not None else None
 
     # context manager / lifecycle
     def __enter__(self):
@@ -153,6 +155,16 @@ class SymPool:
     def _run(self, fn, iterable, what, chunksize=1):
         if self.closed:
             raise ValueError('Pool not running')
+        fs0 = SymPool.fs
+        if fs0 is not None and self.cwd is not None and fs0.cwd != self.cwd and not getattr(self, '_in_worker_cwd', False):
+            # the parent changed directory since the workers were forked: the tasks run where the workers are
+            parent_cwd, fs0.cwd = fs0.cwd, self.cwd
+            self._in_worker_cwd = True
+            try:
+                return self._run(fn, iterable, what, chunksize)
+            finally:
+                fs0.cwd = parent_cwd
+                self._in_worker_cwd = False
         tasks = list(iterable)
         n = len(tasks)
         if chunksize > 1 and n > 1:
